@@ -173,7 +173,7 @@ class Renderer:
         dim_on_entity = False
         dim_stmt = None
         if dimattr:
-            stmt_ok = allow_stmt and all(e.get("init") is None for e in d["ents"])
+            stmt_ok = allow_stmt and not d.get("no_stmt") and all(e.get("init") is None for e in d["ents"])
             sty = self.pick("dim", ["attr", "entity"] + (["stmt"] if stmt_ok else []), [2, 2, 1][: 3 if stmt_ok else 2])
             if sty == "attr":
                 attrs.append(f"{self.kw('dimension')}{dimattr}")
